@@ -26,6 +26,7 @@ template <class T> inline T pick_scalar(Rng& g, int op) {
 
 // compare the whole parent with the model: selected elements updated, every other element bit-identical
 template <class T> inline void cmp_parent(Ctx& c, const T* got, const T* model, size_t n, const std::vector<int>& offs, const std::string& what) {
+    c.digest_add(got, n);
     for (size_t i = 0; i < n; ++i) {
         ++c.compared;
         if (same_val(got[i], model[i])) continue;
